@@ -85,6 +85,115 @@ Example C08_example_nonvacuous :
   i_closed (run true ex_ops) = true.
 Proof. vm_compute. repeat split; reflexivity. Qed.
 
+(** ---- tie to the source (translate/pubsub_funs.py -> Gen/PubSubFuns.v) ----
+    The method bodies of PubSubItem / PubSub are REGENERATED from /repo on every run as terms of
+    PubSub/Syntax.v; PubSub/Interp.v, PubSub/TieBroker.v interpret them ([istep], [ibstep]);
+    [abs]/[babs] map the interpreter's state (attributes + one frame per generator: rest of the
+    body, locals, queue) onto the model's state; [wf]/[bwf] hold of every reachable state. *)
+From NL Require Import PubSub.Syntax Gen.PubSubFuns PubSub.Interp PubSub.Tie PubSub.TieBroker.
+
+(** every operation of a PubSubItem: the regenerated code makes the step of the model *)
+Theorem C08_tie_item_ops : forall ps o, wf ps ->
+  exists ps', istep ps o = Some (ps', snd (step (abs ps) o)) /\
+              abs ps' = fst (step (abs ps) o) /\ wf ps'.
+Proof. exact tie_step. Qed.
+
+(** `await self._enumerate(e)`: stamps, caches and distributes to every registered queue *)
+Theorem C08_tie_enumerate : forall ps e, wf ps ->
+  exists ps', enum_sem ps (VEnt (Some e)) = Some ps' /\ abs ps' = enumerate (abs ps) e /\ wf ps'
+              /\ p_closed ps' = p_closed ps /\ p_last_item ps' = p_last_item ps.
+Proof. exact enum_spec. Qed.
+
+Theorem C08_tie_publish : forall ps v, wf ps -> tied ps (Publish v).
+Proof. exact tie_publish. Qed.
+
+Theorem C08_tie_clear : forall ps, wf ps -> tied ps Clear.
+Proof. exact tie_clear. Qed.
+
+Theorem C08_tie_aclose : forall ps, wf ps -> tied ps Close.
+Proof. exact tie_close. Qed.
+
+Theorem C08_tie_latest : forall ps, wf ps -> tied ps Latest.
+Proof. exact tie_latest. Qed.
+
+(** the call `subscribe(last=l, cache=c)` runs nothing of the body (async generator) *)
+Theorem C08_tie_subscribe_call : forall ps l c, wf ps -> tied ps (Sub l c).
+Proof. exact tie_sub. Qed.
+
+(** the first `__anext__`: snapshot, `_END` check, queue registration, then replay / last / queue *)
+Theorem C08_tie_first_next : forall ps s g,
+  wf ps -> nth_error (p_gens ps) s = Some g -> g_status g = GFresh -> tied ps (Next s).
+Proof. exact tie_next_fresh. Qed.
+
+(** a later `__anext__`, from each of the four places the body can be suspended at *)
+Theorem C08_tie_later_next : forall ps s g k,
+  wf ps -> nth_error (p_gens ps) s = Some g -> g_status g = GSusp k -> tied ps (Next s).
+Proof. exact tie_next_susp. Qed.
+
+(** the queue loop of the regenerated body is [read_queue] of the model *)
+Theorem C08_tie_queue_loop : forall s F li qu n ps en g,
+  nth_error (p_gens ps) s = Some g -> g_queue g = qu ->
+  en "q"%string = VQueue s -> en "last_idx"%string = VInt li -> (length qu < n)%nat ->
+  exists en', agree en en' /\
+    while_loop (exec enum_sem s F sub_wbody) sub_wbody n ps en =
+    match read_queue li qu with
+    | (q', OItem v, _) => RYield (VEnt (Some (It v))) (SWhileRun SSkip sub_wbody) (put_gen ps s (gen_set_queue g q')) en'
+    | (q', OStop, _) => RRet VNone (put_gen ps s (gen_set_queue g q')) en'
+    | (q', _, _) => RBlock (SWhileRun sub_wbody sub_wbody) (put_gen ps s (gen_set_queue g q')) en'
+    end.
+Proof. exact while_spec. Qed.
+
+(** leaving early (aclose of the generator): the `finally` clause removes the queue *)
+Theorem C08_tie_leave : forall ps s, wf ps -> tied ps (Leave s).
+Proof. exact tie_leave. Qed.
+
+(** `PubSubItem(cache=c)` *)
+Theorem C08_tie_init : forall cache,
+  exists ps, iinit [("cache"%string, VBool cache)] = Some ps /\ abs ps = new_item cache /\ wf ps.
+Proof. exact tie_init. Qed.
+
+(** for EVERY history the regenerated code of PubSubItem produces the outputs of the model ... *)
+Theorem C08_tie_item_histories : forall cache ops, iouts cache ops = Some (outs cache ops).
+Proof. exact tie_outs. Qed.
+
+(** ... hence (C08_refines_spec) the outputs of the specification: every theorem above about
+    [outs] is a theorem about the regenerated code *)
+Theorem C08_tie_item_refines_spec : forall cache ops, iouts cache ops = Some (aouts cache ops).
+Proof. exact tie_refines_spec. Qed.
+
+(** every operation of the broker PubSub (publish / end / close / latest / subscribe, and
+    next / leave on the generators it handed out) *)
+Theorem C08_tie_broker_ops : forall ib o, bwf ib ->
+  exists ib', ibstep ib o = Some (ib', snd (bstep (babs ib) o)) /\
+              babs ib' = fst (bstep (babs ib) o) /\ bwf ib'.
+Proof. exact btie_step. Qed.
+
+Theorem C08_tie_broker_publish : forall ib k v, bwf ib -> btied ib (BPublish k v).
+Proof. exact btie_publish. Qed.
+
+(** `subscribe(key)` looks the item up AT THE CALL *)
+Theorem C08_tie_broker_subscribe : forall ib k l, bwf ib -> btied ib (BSub k l).
+Proof. exact btie_sub. Qed.
+
+(** `end(key)`: pop, then aclose of the popped item *)
+Theorem C08_tie_broker_end : forall ib k, bwf ib -> btied ib (BEnd k).
+Proof. exact btie_end. Qed.
+
+(** `close()`: popitem + aclose until the dict is empty *)
+Theorem C08_tie_broker_close : forall ib, bwf ib -> btied ib BClose.
+Proof. exact btie_close. Qed.
+
+Theorem C08_tie_broker_histories : forall ops, ibouts ops = Some (bouts ops).
+Proof. exact btie_outs. Qed.
+
+(** non-vacuity of the tie: the interpreter really runs the regenerated bodies (it is not stuck)
+    on the example history, through replay, last item, queue loop, early leave and end *)
+Example C08_example_tie_nonvacuous :
+  iouts true ex_ops =
+  Some [OUnit; OUnit; OSid 0; OSid 1; OItem 1; OUnit; OItem 3; OItem 2; OItem 3; OUnit; OUnit; OUnit;
+        OItem 4; OStop; OErr; OStop].
+Proof. vm_compute. reflexivity. Qed.
+
 Print Assumptions C08_refines_spec.
 Print Assumptions C08_exact_delivery.
 Print Assumptions C08_complete_when_finished.
@@ -93,3 +202,23 @@ Print Assumptions C08_latest.
 Print Assumptions C08_one_order.
 Print Assumptions C08_broker_unbound_is_ended.
 Print Assumptions C08_broker_close_ends_everything.
+Print Assumptions C08_tie_item_ops.
+Print Assumptions C08_tie_enumerate.
+Print Assumptions C08_tie_publish.
+Print Assumptions C08_tie_clear.
+Print Assumptions C08_tie_aclose.
+Print Assumptions C08_tie_latest.
+Print Assumptions C08_tie_subscribe_call.
+Print Assumptions C08_tie_first_next.
+Print Assumptions C08_tie_later_next.
+Print Assumptions C08_tie_queue_loop.
+Print Assumptions C08_tie_leave.
+Print Assumptions C08_tie_init.
+Print Assumptions C08_tie_item_histories.
+Print Assumptions C08_tie_item_refines_spec.
+Print Assumptions C08_tie_broker_ops.
+Print Assumptions C08_tie_broker_publish.
+Print Assumptions C08_tie_broker_subscribe.
+Print Assumptions C08_tie_broker_end.
+Print Assumptions C08_tie_broker_close.
+Print Assumptions C08_tie_broker_histories.
